@@ -23,6 +23,8 @@ pub const TYS: &[Ty] = &[
     Ty { code: 13, wat: "nullref", dt: DataType::NoneNull },
     Ty { code: 14, wat: "nullfuncref", dt: DataType::NoFuncNull },
     Ty { code: 15, wat: "nullexternref", dt: DataType::NoExternNull },
+    Ty { code: 16, wat: "exnref", dt: DataType::ExnNull },
+    Ty { code: 17, wat: "nullexnref", dt: DataType::NoExnNull },
     // non-nullable twins (distinct types that differ from the above only in nullability)
     Ty { code: 106, wat: "(ref func)", dt: DataType::FuncRef },
     Ty { code: 107, wat: "(ref extern)", dt: DataType::ExternRef },
@@ -34,6 +36,8 @@ pub const TYS: &[Ty] = &[
     Ty { code: 113, wat: "(ref none)", dt: DataType::None },
     Ty { code: 114, wat: "(ref nofunc)", dt: DataType::NoFunc },
     Ty { code: 115, wat: "(ref noextern)", dt: DataType::NoExtern },
+    Ty { code: 116, wat: "(ref exn)", dt: DataType::Exn },
+    Ty { code: 117, wat: "(ref noexn)", dt: DataType::NoExn },
 ];
 
 /// the type that differs from `i` only in nullability
@@ -64,6 +68,8 @@ pub fn code_of_valtype(v: wasmparser::ValType) -> u32 {
                     A::None => 13,
                     A::NoFunc => 14,
                     A::NoExtern => 15,
+                    A::Exn => 16,
+                    A::NoExn => 17,
                     _ => 900,
                 },
                 _ => 901,
